@@ -8,3 +8,4 @@ mkdir -p /verif/target /verif/evidence /verif/replays
 cargo build --release --offline
 RUSTFLAGS="--cfg fuzzing -Cpasses=sancov-module -Cllvm-args=-sanitizer-coverage-level=3 -Cllvm-args=-sanitizer-coverage-trace-pc-guard" cargo build --release --offline --target-dir /verif/target/dense || echo "dense build failed; the dense stage will be skipped"
 /verif/target/x86_64-unknown-linux-gnu/release/sim probe
+/verif/target/x86_64-unknown-linux-gnu/release/sim clocktest
